@@ -149,34 +149,6 @@ def fix_f19():
 
 
 @contextlib.contextmanager
-def fix_f20():
-    """add_fiber_padding records the padded span loss, not span loss + the whole att_in"""
-    import gnpy.core.network as N
-    from gnpy.core import elements as E
-    orig = N.add_fiber_padding
-
-    def add_fiber_padding(network, fibers, padding, equipment):
-        for fiber in fibers:
-            next_node = N.get_next_node(fiber, network)
-            if isinstance(next_node, E.Fused):
-                continue
-            if isinstance(fiber, E.RamanFiber):
-                continue
-            this_span_loss = N.span_loss(network, fiber, equipment)
-            fiber.design_span_loss = this_span_loss
-            if this_span_loss < padding:
-                first_fiber = N.find_first_node(network, fiber)
-                if isinstance(first_fiber, E.Fiber):
-                    first_fiber.params.att_in = first_fiber.params.att_in + padding - this_span_loss
-                    fiber.design_span_loss += padding - this_span_loss
-    N.add_fiber_padding = add_fiber_padding
-    try:
-        yield
-    finally:
-        N.add_fiber_padding = orig
-
-
-@contextlib.contextmanager
 def fix_f8():
     """Roadm.to_json exports design_bands also when there is a single one"""
     from gnpy.core import elements as E
@@ -222,7 +194,9 @@ def fix_f22():
         N.span_loss = orig
 
 
-FIX_CTX = {'F19': fix_f19, 'F20': fix_f20, 'F8': fix_f8, 'F22': fix_f22}
+# F20 (design_span_loss counted att_in twice) and F21 (automatic VOA above the head-room) were repaired in /repo
+# (13a35c31, 99151283): their streams ('att_in', 'voa_margin') stay as regression streams without a matcher.
+FIX_CTX = {'F19': fix_f19, 'F8': fix_f8, 'F22': fix_f22}
 
 
 # ------------------------------------------------------------------ driving the implementation
@@ -256,8 +230,6 @@ def roundtrip(case, fixes=(), rounds=None, want_obs=False, propagate_pair=None):
     from gnpy.core import elements as E
     rounds = case.get('rounds', 1) if rounds is None else rounds
     span = dict(case['span'])
-    if 'F21' in fixes:
-        span['voa_margin'] = max(span.get('voa_margin', 1), round(span.get('voa_step', 0.5), 1) / 2)
     eq1 = build_equipment(span, case.get('si'), case.get('auto_voa', False))
     span2 = dict(span)
     if 'F7' in fixes:
@@ -375,7 +347,7 @@ def attribute(case, pair):
     """minimal set of counterfactual fixes under which the drift disappears (None if none does)"""
     import itertools
     cands = ['F7'] if case['span'].get('EOL') else []
-    cands += ['F19', 'F20', 'F21']
+    cands += ['F19']
     if any(e['k'] == 'R' for ln in case.get('lines', []) for e in ln['els']):
         cands.append('F22')
     if case.get('multiband'):
@@ -595,8 +567,6 @@ MATCHERS = {
     'F7-eol-readded': mk_matcher('F7'),
     'F8-roadm-single-design-band-dropped': mk_matcher('F8'),
     'F19-fiber-to-json-drops-lumped-losses': mk_matcher('F19'),
-    'F20-design-span-loss-counts-att-in-twice': mk_matcher('F20'),
-    'F21-voa-margin-below-half-step': mk_matcher('F21'),
     'F22-raman-estimate-ignores-out-voa': mk_matcher('F22'),
     'F15-raman-span-loss-without-power': lambda v: (v['key'] == 'redesign_raises' and v.get('detail', {}).get('exc_type') == 'TypeError'
                                                      and v.get('detail', {}).get('raman_gain_mode') is True),
@@ -631,7 +601,7 @@ def run(ctx):
     if ctx.replay:
         cases = [json.load(open(ctx.replay))['case']]
     else:
-        nvalid = int(os.environ.get('VERIF_C17_N', ctx.scale(40, 1500)))
+        nvalid = int(os.environ.get('VERIF_C17_N', ctx.scale(30, 900)))
         cases += [gen_case(rng) for _ in range(nvalid)]
         for kind, n in (('eol', ctx.scale(3, 40)), ('lumped', ctx.scale(3, 40)), ('att_in', ctx.scale(3, 40)),
                         ('voa_margin', ctx.scale(4, 60)), ('raman', ctx.scale(3, 40))):
